@@ -20,9 +20,9 @@ import worlds
 LEVEL = "model_checking"
 
 
-def stress(ctx, mode, seed, callers, calls):
+def stress(ctx, mode, seed, callers, calls, features=()):
     out = os.path.join(vlib.WORK, f"c08-{mode}-{seed}-{os.getpid()}.ndjson")
-    bindir = vlib.build_harness()
+    bindir = vlib.build_harness(features)
     try:
         p = subprocess.run([os.path.join(bindir, "amv"), "c08-stress", out, str(seed), str(callers), str(calls), mode],
                            stdout=subprocess.PIPE, stderr=subprocess.PIPE, text=True, timeout=180, cwd=vlib.WORK)
@@ -33,7 +33,7 @@ def stress(ctx, mode, seed, callers, calls):
     for line in so.splitlines():
         if line.startswith("REPORT "):
             rep = json.loads(line[7:])
-    scenario = dict(mode=mode, seed=seed, callers=callers, calls=calls)
+    scenario = dict(mode=mode, seed=seed, callers=callers, calls=calls, features=list(features))
     if rc == 3 or (rep and rep.get("blocked")):
         ctx.violation(f"C08/blocked:{mode}", f"hot_reload callers blocked (no progress, no CPU) in mode {mode} with {callers} callers",
                       dict(scenario=scenario, report=rep, trace_file=out))
@@ -79,12 +79,15 @@ def run(ctx):
             calls = 500 // callers if mode == "plain" else 300 // callers
             if len(ctx.violations) >= 3:
                 break          # enough evidence; blocked runs are slow to time out
-            res = stress(ctx, mode, sd, callers, calls)
+            # both lock implementations: odd seeds run on parking_lot
+            feats = ("parking_lot",) if (sd - ctx.seed) % 2 == 1 else ()
+            res = stress(ctx, mode, sd, callers, calls, feats)
             if res is None:
                 continue
             out, rep = res
             ctx.case(dict(mode=mode, seed=sd, callers=callers, events=rep["events"]))
-            runs.append(dict(mode=mode, seed=sd, callers=callers, calls=calls, hook_events=rep["events"], projected=rep["projected"]))
+            runs.append(dict(mode=mode, seed=sd, callers=callers, calls=calls, locks=("parking_lot" if feats else "std"),
+                             hook_events=rep["events"], projected=rep["projected"]))
             if not vlib.hooks_present():
                 os.remove(out)
                 continue
